@@ -90,6 +90,10 @@ def _chunk(prop, stream, seed, tier, lo, hi, cfg, statedir, want_samples):
                 stats['violating_runs'] += 1
                 if len(violations) < 3:
                     violations.append((sc, vs))
+                if stats.get('wall_timeouts', 0) >= 2:
+                    # a tree on which single evaluations hang costs 20 s each: two confirmations per chunk suffice
+                    stats['runs_skipped_after_wall_timeouts'] += hi - i - 1
+                    break
             if want_samples and len(samples) < want_samples and (i - lo) % max(1, (hi - lo) // want_samples) == 0:
                 samples.append(_strip(sc))
     finally:
@@ -103,7 +107,7 @@ def _chunk(prop, stream, seed, tier, lo, hi, cfg, statedir, want_samples):
 
 
 def _strip(sc):
-    return dict((k, v) for k, v in sc.items() if not k.startswith('_') or k in ('_stream', '_run', '_seed'))
+    return dict((k, v) for k, v in sc.items() if not k.startswith('_') or k in ('_stream', '_run', '_seed', '_shrink_execs'))  # noqa
 
 
 def _fails_same(prop, sc, invariant):
@@ -197,6 +201,11 @@ def run_check(prop, tier, seed=None, workers=None, out=sys.stdout):
     ex = ProcessPoolExecutor(max_workers=workers, mp_context=ctx, initializer=_worker_init)
     futs = {}
     try:
+        # tasks that need one fresh process (e.g. C02's live-object census) go first and are always awaited
+        if hasattr(mod, 'single_process_tasks'):
+            for name, fn_name, arg in mod.single_process_tasks(tier, seed, cfg):
+                f = ex.submit(_call, prop, fn_name, arg)
+                futs[f] = ('task:' + name, 0, 0)
         for stream, sizes in mod.STREAMS.items():
             n = int(sizes[tier] * scale)
             if n <= 0:
@@ -210,10 +219,6 @@ def run_check(prop, tier, seed=None, workers=None, out=sys.stdout):
                 f = ex.submit(_chunk, prop, stream, seed, tier, lo, hi, cfg, statedir, 2 if first else 0)
                 futs[f] = (stream, lo, hi)
                 first = False
-        if hasattr(mod, 'single_process_tasks'):
-            for name, fn_name, arg in mod.single_process_tasks(tier, seed, cfg):
-                f = ex.submit(_call, prop, fn_name, arg)
-                futs[f] = ('task:' + name, 0, 0)
         pending = set(futs)
         grace_until = None
         while pending:
@@ -241,11 +246,18 @@ def run_check(prop, tier, seed=None, workers=None, out=sys.stdout):
             if now - t0 > wall_cap and not truncated:
                 truncated = True
                 for g in pending:
-                    g.cancel()
+                    if not futs[g][0].startswith('task:'):
+                        g.cancel()
                 pending = set(g for g in pending if not g.cancelled())
                 grace_until = now + float(cfg.get('grace', 45))
             if truncated and pending and now > grace_until:
-                # chunks still running long after the cap: give up on them (no verdict from them)
+                # chunks still running long after the cap: give up on them (no verdict from them);
+                # a single-process task gets ten more minutes, then its loss is a harness error
+                tasks_left = [g for g in pending if futs[g][0].startswith('task:')]
+                if tasks_left and now < grace_until + 600:
+                    continue
+                if tasks_left:
+                    harness_problem = 'task %s did not finish' % [futs[g][0] for g in tasks_left]
                 abandoned = len(pending)
                 total['abandoned_chunks'] += abandoned
                 _kill_pool(ex)
@@ -281,6 +293,13 @@ def run_check(prop, tier, seed=None, workers=None, out=sys.stdout):
                     if len(reports) >= int(cfg.get('max_reports', 4)):
                         continue
                     execs = -1
+                    if v['invariant'].endswith('wall_backstop') and hasattr(mod, 'quick_reduce'):
+                        small = mod.quick_reduce(_strip(sc), v)
+                        small['_shrink_execs'] = 0
+                        small['_unshrunk'] = _strip(sc)
+                        small['_needs_fresh_confirmation'] = True
+                        reports.append((small, v))
+                        continue
                     try:
                         small, execs = ex2.submit(_shrink_task, prop, _strip(sc), v['invariant'],
                                                   int(cfg.get('shrink_exec', 300))).result(timeout=900)
@@ -291,13 +310,41 @@ def run_check(prop, tier, seed=None, workers=None, out=sys.stdout):
                     except Exception:  # shrinking is best-effort; report unshrunk
                         small, v2 = _strip(sc), [v]
                     small['_shrink_execs'] = execs
+                    small['_unshrunk'] = _strip(sc)
                     reports.append((small, v2[0]))
 
-    wall = time.time() - t0
     replay_paths = []
-    for small, v in reports:
+    replay_verified = []
+    for k, (small, v) in enumerate(reports):
         path = write_replay(prop, small, v)
+        ok = _verify_replay(prop, path)
+        if not ok and '_unshrunk' in small:
+            # the minimised scenario does not stand alone: fall back to the scenario as found
+            big = small['_unshrunk']
+            path2 = write_replay(prop, big, v)
+            if _verify_replay(prop, path2):
+                try:
+                    os.unlink(path)
+                except OSError:
+                    pass
+                path, ok = path2, True
         replay_paths.append(path)
+        replay_verified.append(ok)
+    # a wall-clock verdict only counts when a fresh process confirms it
+    keep = [k for k in range(len(reports)) if replay_verified[k] or not reports[k][0].get('_needs_fresh_confirmation')]
+    dropped = len(reports) - len(keep)
+    if dropped:
+        total['wall_timeouts_not_confirmed_in_fresh_process'] += dropped
+        for k in range(len(reports)):
+            if k not in keep:
+                try:
+                    os.unlink(replay_paths[k])
+                except OSError:
+                    pass
+    reports = [reports[k] for k in keep]
+    replay_paths = [replay_paths[k] for k in keep]
+    replay_verified = [replay_verified[k] for k in keep]
+    wall = time.time() - t0
     for key, e in sorted(known_hits.items()):
         print('KNOWN-FINDING: property=%s %s' % (prop, e.get('what', e['sig'])), file=out)
     ev = build_evidence(mod, prop, tier, seed, total, digests, reach, samples, wall, planned, done_runs,
@@ -314,9 +361,12 @@ def run_check(prop, tier, seed=None, workers=None, out=sys.stdout):
         print('HARNESS-ERROR %s' % harness_problem, file=out)
         return HARNESS_EXIT
     if reports:
-        for (small, v), path in zip(reports, replay_paths):
+        for (small, v), path, ok in sorted(zip(reports, replay_paths, replay_verified), key=lambda x: not x[2]):
             print('VIOLATION property=%s replay=%s' % (prop, path), file=out)
-            print('  invariant=%s sig=%s' % (v['invariant'], v.get('sig')), file=out)
+            print('  invariant=%s sig=%s replay_reproduces_in_fresh_process=%s' % (v['invariant'], v.get('sig'), ok), file=out)
+            if not ok:
+                print('  note: the violation depends on what the same worker process ran before (process-global state); '
+                      'rerun the check with the same VERIF_SEED to observe it again', file=out)
             print('  detail=%s' % json.dumps(v.get('detail'), ensure_ascii=True)[:600], file=out)
         return 1
     if done_runs == 0:
@@ -342,6 +392,17 @@ def _kill_pool(ex):
                 p.kill()
         except Exception:
             pass
+
+
+def _verify_replay(prop, path):
+    """Re-execute a replay file in a fresh interpreter; True iff it reports the violation again."""
+    import subprocess
+    try:
+        p = subprocess.run([sys.executable, os.path.join(VERIF, 'check'), prop, '--replay', path],
+                           stdout=subprocess.PIPE, stderr=subprocess.PIPE, timeout=600)
+    except Exception:
+        return False
+    return p.returncode == 1 and b'VIOLATION' in p.stdout
 
 
 def _call(prop, fn_name, arg):
